@@ -36,8 +36,13 @@ dt = st.sampled_from([0.01, 0.1, 0.5, 0.9, 1.0, 1.1, 2.0, 5.0, 9.99, 10.0,
 autofeed = st.sampled_from([True, True, False])
 
 
-def op_apply(limits=False, lost=False, unpicklable=False, soft=None, hard=None):
+def op_apply(limits=False, lost=False, unpicklable=False, soft=None, hard=None,
+             cbscan=False):
     opts = {}
+    if cbscan:
+        # a slow result callback during which this much time passes and the
+        # timeout scanner thread runs once
+        opts['cbscan'] = st.sampled_from([None, None, 1.0, 3.0, 10.0, 20.0])
     if limits:
         opts['soft'] = soft if soft is not None else lim
         opts['hard'] = hard if hard is not None else lim
@@ -76,6 +81,10 @@ adv_lim = st.tuples(st.just('adv'), st.sampled_from(
     [0.99, 1.0, 1.01, 1.99, 2.0, 2.01, 3.0, 4.99, 5.0, 5.01, 9.99, 10.0, 10.01,
      19.99, 20.0, 20.01])).map(list)
 dier = st.tuples(st.just('die'), k, status, st.just(True)).map(list)
+# a worker leaving mid-task with the clean / recycle exit status
+dier0 = st.tuples(st.just('die'), k, st.sampled_from([0, 155]),
+                  st.just(True)).map(list)
+lastgasp = st.tuples(st.just('lastgasp'), k, status_any).map(list)
 feed = st.one_of(st.tuples(st.just('feed')).map(list),
                  st.just(['feed', None, False, True]))
 feed_fault = st.tuples(st.just('feed'), st.one_of(st.none(), st.integers(0, 3)),
